@@ -1,4 +1,5 @@
 import Bxh.Props.C04
+import Bxh.Proofs.ExecListedE
 /-!
 # C06 — over whole histories of blocks (uses the `Tracked` invariant of `Props/C04.lean`)
 
@@ -57,5 +58,12 @@ theorem C06_open_listed_only_under_its_deadline (cfg : Cfg) (blocks : List (List
     have h2 := listedAt_iff_count.mp hl
     exact ⟨hO.only d hd hl, hopen, by omega⟩
   | final st' hF _ => exact absurd hl (hF.unlisted d hd)
+
+/-- **the transactions of a block neither add a one-to-one id to a timeout list nor take one off**: after any block's transactions
+every one-to-one id is on every list exactly as often as before (only the bookkeeping at the end of the block edits them), and the
+lists stay well-formed -/
+theorem C06_transactions_leave_the_lists_alone (cfg : Cfg) (n : Node) (txs : List (Tx × Bool)) (d : Nat) (t : TxId) :
+    listCount (applyTxs cfg n.cache (n.height + 1) n.led txs).led d t = listCount n.led d t :=
+  applyTxs_count_eq cfg n.cache (n.height + 1) n.led txs d t
 
 end Bxh.Props.C06
